@@ -88,6 +88,20 @@ fn p_pg(s: &str) -> Option<(ParallelGroup, PgIn)> {
     Some((ParallelGroup::with_options(ags, ParallelGroupOptions { is_mergeable: m }), PgIn { mergeable: m, ags: info }))
 }
 
+/// bincode BYTES of the real transaction solana_sdk builds (signatures left default).
+fn real_bytes(payer: &Pubkey, ixs: &[Instruction], versioned: bool, luts: &AddressLookupTables) -> Result<Vec<u8>, String> {
+    if versioned {
+        let accounts: Vec<AddressLookupTableAccount> = luts.accounts().collect();
+        let msg = v0::Message::try_compile(payer, ixs, &accounts, Hash::default()).map_err(|e| format!("{e}"))?;
+        let n = msg.header.num_required_signatures as usize;
+        let tx = VersionedTransaction { signatures: vec![Signature::default(); n], message: VersionedMessage::V0(msg) };
+        bincode::serialize(&tx).map_err(|e| format!("{e}"))
+    } else {
+        let tx = Transaction::new_unsigned(Message::new(ixs, Some(payer)));
+        bincode::serialize(&tx).map_err(|e| format!("{e}"))
+    }
+}
+
 /// bincode length of the real transaction solana_sdk builds (signatures left default).
 fn real_len(payer: &Pubkey, ixs: &[Instruction], versioned: bool, luts: &AddressLookupTables) -> Result<usize, String> {
     if versioned {
@@ -134,6 +148,33 @@ fn exec_inner(t: &[&str], cx: &mut Ctx) -> Option<String> {
                 else { cx.fails.push(format!("size estimate {est} is below the real serialized size {wire}")); }
             }
             Some(format!("est {est} wire {wire}"))
+        }
+        "bytes" if t.len() == 6 => {
+            // the serialized transaction itself (the Lean model must produce the same BYTES)
+            let payer = pk(t[2].parse().ok()?);
+            let ver = match t[3] { "1" => true, "0" => false, _ => return None };
+            let ixs = p_ixs(t[5])?;
+            let luts = if t[4] == "none" { AddressLookupTables::default() } else { mk_luts(&p_luts(t[4])?) };
+            let bytes = real_bytes(&payer, &ixs, ver, &luts).ok()?;
+            cx.nt = !ixs.is_empty();
+            // ORACLE: the per-table estimate is never below the length of these bytes (v0 only)
+            if ver {
+                let est = transaction_size_with_luts(payer, &ixs, true, Some(&luts));
+                if est == bytes.len() { cx.stats.push("bytes.estimate_exact"); }
+                if est < bytes.len() {
+                    let accounts: Vec<AddressLookupTableAccount> = luts.accounts().collect();
+                    let big = v0::Message::try_compile(&payer, &ixs, &accounts, Hash::default()).map(|m| {
+                        let over: usize = m.address_table_lookups.iter().map(|l| (l.writable_indexes.len() >= 128) as usize + (l.readonly_indexes.len() >= 128) as usize).sum();
+                        over > 0 && bytes.len() - est <= over
+                    }).unwrap_or(false);
+                    if big { cx.known.push(("F-C41-compact".into(), format!("estimate {est} below serialized {}", bytes.len()))); }
+                    else { cx.fails.push(format!("size estimate {est} is below the real serialized size {}", bytes.len())); }
+                }
+            }
+            if ixs.iter().any(|ix| ix.accounts.len() >= 128) { cx.stats.push("bytes.accounts_ge_128"); }
+            if ixs.iter().any(|ix| ix.data.len() >= 128) { cx.stats.push("bytes.data_ge_128"); }
+            if bytes.len() > 1232 { cx.stats.push("bytes.over_packet"); }
+            Some(bytes.iter().map(|b| format!("{b:02x}")).collect::<String>())
         }
         "sizeset" if t.len() == 6 => {
             // `transaction_size`, as `TransactionBuilder::transaction_size` calls it: the union of all
@@ -293,7 +334,25 @@ impl G<'_> {
 
 fn gen_req(r: &mut Rng) -> String {
     let mut g = G { r, next_id: 0 };
-    match g.r.below(12) {
+    match g.r.below(16) {
+        12..=15 => {
+            // serialized BYTES: ordinary keys only; crosses the compact-u16 boundaries
+            let n = g.r.range(0, 5);
+            let mut ixs: Vec<String> = (0..n).map(|_| g.ix(true)).collect();
+            if g.r.chance(1, 4) {
+                // an instruction with 120..140 accounts (compact-u16 boundary at 128), partly duplicated keys
+                g.next_id += 1;
+                let k = g.r.range(120, 140);
+                let base = if g.r.chance(1, 2) { 1000 } else { 2 };
+                let metas: Vec<String> = (0..k).map(|i| format!("{}.{}", base + if g.r.chance(1, 6) { g.r.below(k) } else { i }, g.r.below(4))).collect();
+                ixs.push(format!("{}~{}~{}~{}", g.next_id, 500 + g.r.below(3), g.r.range(4, 300), metas.join(",")));
+            }
+            let ver = g.r.chance(3, 4);
+            let luts = if !ver || g.r.chance(1, 4) { "none".to_string() } else if g.r.chance(1, 3) {
+                let m = g.r.range(100, 160); (0..m).map(|i| (1000 + i).to_string()).collect::<Vec<_>>().join(",")
+            } else { g.luts() };
+            format!("txp bytes {} {} {} {}", g.payer(), ver as u8, luts, if ixs.is_empty() { "-".into() } else { ixs.join("+") })
+        }
         10 | 11 => {
             let n = g.r.range(0, 6);
             let ixs: Vec<String> = (0..n).map(|_| g.ix(true)).collect();
